@@ -33,6 +33,8 @@ type World struct {
 	Tmp    string
 	Home   string
 	ncalls int
+	// FK adds _fk=1 to the target's URL: the connection enforces foreign keys.
+	FK bool
 }
 
 // NewWorld creates the world under the run's scratch directory.
@@ -56,7 +58,12 @@ func NewWorld(r *simkit.Run) *World {
 }
 
 // URL returns the Atlas URL of the target database.
-func (w *World) URL() string { return "sqlite://" + w.DB + "?_busy_timeout=100" }
+func (w *World) URL() string {
+	if w.FK {
+		return "sqlite://" + w.DB + "?_busy_timeout=100&_fk=1"
+	}
+	return "sqlite://" + w.DB + "?_busy_timeout=100"
+}
 
 // DevURL returns the Atlas URL of the dev database.
 func (w *World) DevURL() string { return "sqlite://" + w.DevDB + "?_busy_timeout=100" }
